@@ -731,16 +731,42 @@ pub fn run_c16(ctx: &mut Ctx) {
         let mut mods = b.mods.clone();
         let bad_name = *rng.pick(&["Thiscall", "this_call", "", "C ", "c", "STDCALL", "fast-call", "win64", "thiscall "]);
         let mut done = false;
-        'outer: for (_, m) in mods.iter_mut() {
+        // any function of the program (impl block or vftable block); the bad attribute is the
+        // only one, or sits before / after a valid one
+        let shape = rng.below(3);
+        let mut fns: Vec<&mut Function> = vec![];
+        for (_, m) in mods.iter_mut() {
             for blk in m.impls.iter_mut() {
-                for f in blk.functions.iter_mut() {
-                    f.attributes.0.retain(|a| !matches!(a, Attribute::Function(i, _) if i.as_str() == "calling_convention"));
-                    f.attributes.0.push(Attribute::calling_convention(bad_name));
-                    done = true;
-                    break 'outer;
+                fns.extend(blk.functions.iter_mut());
+            }
+            for d in m.definitions.iter_mut() {
+                if let ItemDefinitionInner::Type(td) = &mut d.inner {
+                    for st in td.statements.iter_mut() {
+                        if let TypeField::Vftable(v) = &mut st.field {
+                            fns.extend(v.iter_mut());
+                        }
+                    }
                 }
             }
         }
+        if !fns.is_empty() {
+            let k = rng.below(fns.len());
+            let f = &mut fns[k];
+            f.attributes.0.retain(|a| !matches!(a, Attribute::Function(i, _) if i.as_str() == "calling_convention"));
+            match shape {
+                0 => f.attributes.0.push(Attribute::calling_convention(bad_name)),
+                1 => {
+                    f.attributes.0.insert(0, Attribute::calling_convention(bad_name));
+                    f.attributes.0.push(Attribute::calling_convention("cdecl"));
+                }
+                _ => {
+                    f.attributes.0.insert(0, Attribute::calling_convention("stdcall"));
+                    f.attributes.0.push(Attribute::calling_convention(bad_name));
+                }
+            }
+            done = true;
+        }
+        ctx.count(&format!("negative_shape_{shape}"), done as u64);
         if !done {
             continue;
         }
@@ -881,6 +907,71 @@ pub fn c17_exhaustive(first_id: usize) -> Vec<(String, Vec<(ItemPath, Module)>, 
     out
 }
 
+/// Shapes at the edges of what decides a derive or a visibility: array lengths around 32
+/// (the longest array with a Default impl), declared `_` fields, and virtual functions whose
+/// names look like generated ones.
+pub fn c17_shapes(first_id: usize) -> Vec<(String, Vec<(ItemPath, Module)>, usize)> {
+    let mut out = vec![];
+    let vis = |p: bool| if p { Visibility::Public } else { Visibility::Private };
+    for len in [0usize, 1, 31, 32, 33, 64] {
+        for elem in ["u8", "u32", "E"] {
+            for markers in 0..8u32 {
+                for gap in [0usize, 31, 32, 33] {
+                    let id = format!("k{}_", first_id + out.len());
+                    let mut tattrs = vec![Attribute::doc(" shape")];
+                    if markers & 1 != 0 {
+                        tattrs.push(Attribute::copyable());
+                    }
+                    if markers & 2 != 0 {
+                        tattrs.push(Attribute::cloneable());
+                    }
+                    if markers & 4 != 0 {
+                        tattrs.push(Attribute::defaultable());
+                    }
+                    let mut stmts = vec![TypeStatement::field((Visibility::Public, "arr"), Type::ident(elem).array(len)).with_attributes([Attribute::doc(" the array")])];
+                    if gap > 0 {
+                        stmts.push(TypeStatement::field((Visibility::Private, "_"), Type::Unknown(gap)));
+                    }
+                    let m = Module::new().with_definitions([
+                        ItemDefinition::new(
+                            (Visibility::Public, "E"),
+                            EnumDefinition::new(Type::ident("u8"), [EnumStatement::field("A").with_attributes([Attribute::default()])], [Attribute::copyable(), Attribute::defaultable()]),
+                        ),
+                        ItemDefinition::new((Visibility::Public, "T"), TypeDefinition::new(stmts).with_attributes(Attributes(tattrs))),
+                    ]);
+                    out.push((id.clone(), vec![(ItemPath::from(format!("{id}sh").as_str()), m)], if (len + gap) % 2 == 0 { 8 } else { 4 }));
+                }
+            }
+        }
+    }
+    for name in ["vf", "_vf", "_vfunc_7", "__", "_0", "vftable", "r#type", "_field_0"] {
+        for public in [false, true] {
+            for idx in [None, Some(3usize)] {
+                let id = format!("k{}_", first_id + out.len());
+                let mut f = Function::new((vis(public), name), [Argument::ConstSelf]).with_attributes([Attribute::doc(" a slot")]);
+                if let Some(i) = idx {
+                    f.attributes.0.push(Attribute::index(i));
+                }
+                let m = Module::new().with_definitions([
+                    ItemDefinition::new(
+                        (Visibility::Public, "V"),
+                        TypeDefinition::new([
+                            TypeStatement::vftable([Function::new((vis(!public), "first"), [Argument::MutSelf]), f.clone()]),
+                            TypeStatement::field((vis(public), "x"), Type::ident("u32")),
+                        ]),
+                    ),
+                    ItemDefinition::new(
+                        (Visibility::Public, "D"),
+                        TypeDefinition::new([TypeStatement::field((Visibility::Public, "base"), Type::ident("V")).with_attributes([Attribute::base()])]),
+                    ),
+                ]);
+                out.push((id.clone(), vec![(ItemPath::from(format!("{id}vn").as_str()), m)], if public { 8 } else { 4 }));
+            }
+        }
+    }
+    out
+}
+
 pub fn run_c17(ctx: &mut Ctx) {
     ctx.rule = "random accepted programs from the rich generator (every pub/private mix on types, fields, vfuncs, impl fns, extern values; marker subsets; 0-3 doc lines incl. empty lines, leading spaces, quotes on modules, types, enums, fields, functions; inheritance so that inherited copies exist) plus the exhaustive 2^14 product of visibility/marker bits for a 2-field type, an enum, one vfunc, one impl fn and one extern value; every emitted item's visibility, derive set, packed/align repr and doc attributes (line for line) are compared with the source, and generated items (padding, vftable pointer, placeholder slots, vftable struct, accessors) must be private/undocumented. non-trivial = accepted case with >=1 documented item and a non-default visibility/marker combination; distinct by structural hash".into();
     let n = ctx.tier.pick(1500, 30_000);
@@ -891,6 +982,9 @@ pub fn run_c17(ctx: &mut Ctx) {
     ctx.count("exhaustive_marker_visibility_cases", exn.len() as u64);
     ctx.extra.insert("exhaustive_product".into(), json!({"bits": 14, "stride": stride, "complete": stride == 1}));
     inputs.extend(exn);
+    let shapes = c17_shapes(inputs.len());
+    ctx.count("edge_shape_cases", shapes.len() as u64);
+    inputs.extend(shapes);
     let built: Vec<BuildOutcome> = inputs.par_iter().map(|(id, mods, ptrw)| l2::build_mods(id, mods, *ptrw)).collect();
     let mut stats = BTreeMap::new();
     let mut sampled = 0;
